@@ -77,6 +77,7 @@ from vgi_rpc.rpc._wire import (
     _deserialize_params,
     _drain_stream,
     _flush_collector,
+    _flush_collector_logs,
     _MissingMethodError,
     _read_request_batch,
     _validate_call_signature,
@@ -1210,8 +1211,13 @@ class RpcServer:
             status = "error"
             error_type = _log_method_error(protocol_name, info.name, self._server_id, exc)
             error_message = str(exc)
-            with contextlib.suppress(BrokenPipeError, OSError):
-                _write_error_stream(transport.writer, _EMPTY_SCHEMA, exc, server_id=self._server_id)
+            # Messages the method logged before it raised precede the error.
+            with (
+                contextlib.suppress(BrokenPipeError, OSError),
+                new_ipc_stream(transport.writer, _EMPTY_SCHEMA) as err_writer,
+            ):
+                sink.flush_contents(err_writer, _EMPTY_SCHEMA)
+                _write_error_batch(err_writer, _EMPTY_SCHEMA, exc, server_id=self._server_id)
             return False
         finally:
             if status == "error":
@@ -1255,6 +1261,9 @@ class RpcServer:
             with new_ipc_stream(transport.writer, output_schema) as output_writer:
                 sink.flush_contents(output_writer, output_schema)
                 cumulative_bytes = 0
+                # The collector of a process() step whose output has not been
+                # written yet: if the step fails, what it logged still goes out.
+                unflushed: OutputCollector | None = None
                 try:
                     while True:
                         try:
@@ -1328,9 +1337,11 @@ class RpcServer:
                             kind=self._transport_kind,
                             implementation=self._impl,
                         )
+                        unflushed = out
                         state.process(ab_in, out, process_ctx)
                         if not out.finished:
                             out.validate()
+                        unflushed = None
                         _flush_collector(output_writer, out, self._external_config, shm=shm)
                         if out.finished:
                             break
@@ -1341,6 +1352,8 @@ class RpcServer:
                     error_type = _log_method_error(protocol_name, info.name, self._server_id, exc)
                     error_message = str(exc)
                     with contextlib.suppress(BrokenPipeError, OSError):
+                        if unflushed is not None:
+                            _flush_collector_logs(output_writer, unflushed)
                         _write_error_batch(output_writer, output_schema, exc, server_id=self._server_id)
                 finally:
                     # Release the final input before closing the output IPC
